@@ -72,6 +72,10 @@ def run(R, ctx):
         from .. import rendezvousgen
         rendezvousgen.run_suite(R, ctx, binary, 150 if R.tier == "quick" else 3000)
         R.rule += (" || rendezvous (cluster-mode connection loop): a line is non-trivial when at least one committed proposal's reply reached its connection and was compared")
+    from .. import clustersuite
+    clustersuite.one_node_probe(R, "q-halfclose-cluster-1", R.seed * 1000 + 5,
+                                "a real cluster node writes exactly one reply per command, in order, also for a pipeline whose writer closed its sending side at once (replies wait for commits there)",
+                                "a command read from a connection of a cluster node got no reply, or replies out of order")
     if broken and not any(found for _p, _s, found in R.violations):
         # fact F6 is broken and neither the suite nor the sessions aimed at the offending executors produced a framing break: name the call
         if all(t.startswith("ReplySites.") for t, _ in getattr(ctx, "broken", [])):
@@ -85,4 +89,7 @@ def run(R, ctx):
 
 
 def replay(R, payload):
+    if payload.get("engine") == "cluster":
+        from .. import clustersuite
+        return clustersuite.replay_cluster(R, payload)
     return core.generic_replay(R, payload)
